@@ -817,6 +817,17 @@ def _keyed_extreme(I, n, op, v, key):
                     items.append(Sc(sym.Opq("unmodelled:arg-extreme-row", (sym.subst_ivar(a.elem, civ, j),), fresh("u"))))
             return Seq(items, "tuple")
     if isinstance(key, ObjV) and key.tag == "attrgetter" and isinstance(v, Seq):
+        if len(v.items) == 1:
+            return v.items[0]
+        if len(v.items) == 2 and key.attrs.get("k"):
+            # the first of the two whose key is extreme (python keeps the first on ties)
+            ks = [I.attribute(x, key.attrs["k"], n, {}) for x in v.items]
+            if all(isinstance(k_, Sc) and k_.e is not None for k_ in ks):
+                c = sym.Cmp("<=" if op == "min" else ">=", ks[0].e, ks[1].e)
+                out = Alt(list(v.items))
+                if isinstance(out, Alt) and len(out.vals) == 2:
+                    out.conds = [c, sym.Not(c)]
+                return out
         return Alt(list(v.items)) if v.items else I.unknown("empty-extreme", n)
     return I.unknown("keyed-" + op, n)
 
@@ -971,6 +982,7 @@ def _candidates(I, v):
 @prim("numpy.unique")
 def p_unique(I, n, pos, kw):
     v = pos[0]
+    I.event("unique", n, arg=v)
     c_ = _candidates(I, v)
     if c_ is not None:
         return c_
@@ -1005,7 +1017,13 @@ def p_concat(I, n, pos, kw):
             from .values import VStack
             return VStack([x.renamed() for x in parts])
     if isinstance(v, Seq):
-        return Bag(_freshen(sym.Choice([generic_elem(x) for x in v.items])), None, False, None)
+        parts = []
+        for x in v.items:
+            if isinstance(x, Bag) and x.parts:
+                parts.extend(x.parts)
+            else:
+                parts.append(x)
+        return Bag(_freshen(sym.Choice([generic_elem(x) for x in v.items])), None, False, None, parts)
     return Bag(_freshen(generic_elem(v)), None, False, None)
 
 
